@@ -126,10 +126,17 @@ class H5Group:
         shape = np.shape(data)
         if self.has_data(name):
             dset = self.get_dataset(name)
+            if dset.dataset.dtype.kind in "biuf":
+                # data that does not fit is refused before the stored
+                # values are resized
+                data = np.asarray(data, dtype=dset.dataset.dtype)
             dset.shape = shape
         else:
             if dtype is None:
                 dtype = DataType.get_dtype(data[0])
+            if np.dtype(dtype).kind in "biuf":
+                # ... and before a dataset is created for them
+                data = np.asarray(data, dtype=dtype)
             dset = self.create_dataset(name, shape, dtype, compression)
 
         dset.write_data(data)
